@@ -92,6 +92,15 @@ def _c19(tier, replay, seed, work, t0):
                             if err and (ln <= 3 or rng.random() < 0.3):
                                 # the failing command printed output before its ACK: still exactly n successful frames, then the error
                                 cases.append({"kind": "resp", "nframes": n, "err": err, "partial": True, "moves": list(mv)})
+        # positional access: nth / nth_back (what skip, step_by, ... are built on) mixed with the single steps
+        for n in range(0, 5):
+            for err in (False, True):
+                if n == 0 and not err:
+                    continue
+                for _ in range(12 if quick else 120):
+                    mv = [rng.choice(["n", "b", "s", "t1", "t2", "t3", "r1", "r2"]) for _ in range(rng.randint(1, 4))]
+                    if any(len(m) == 2 for m in mv):
+                        cases.append({"kind": "resp", "nframes": n, "err": err, "moves": mv})
         for i, c in enumerate(cases):
             c["id"] = i
     nrec, traces = _validate(prop, "FrameTrace", "FrameTrace.cfg", binpath, "frame", cases, work, verdict)
